@@ -38,4 +38,40 @@ CLAIMS["C05"] = {
     "note": "Trusted: TLC, strconv/fmt float text (distances are atoms), projection (own pre-order walk).",
     "technique": T,
 }
+CLAIMS["C06"] = {
+    "text": "Stream.tla composes an io.Reader that cuts the input into arbitrary Read results (incl. data together with EOF), bufio.Reader's fill/ReadByte with its pending error, the byte machine of fasta.read() and the iterator layers; TLC explores every schedule of every input <= 4 (thorough 5) bytes and checks SchedFree (items = denotation, whatever the schedule). Sessions recorded from all six readers (FASTA, FASTQ, SAM Reader and ReaderHeader, BED, Newick) on well-formed inputs (incl. two larger than bufio's buffer), mutated and random inputs under 13 read schedules, CRLF conversion, File on a plain and a gzip file and on an unopenable path are judged by Trace_Cross against the in-memory reference run.",
+    "ref": "DESIGN.md section 6 C06",
+    "note": "Trusted: TLC, gzip/aio (exercised), interning of items (injective projection). The clause 'well-formed input decodes to its denotation' is discharged per format in C01-C05.",
+    "technique": T,
+}
+CLAIMS["C07"] = {
+    "text": "Stream.tla: TLC explores the byte-level FASTA reader over every read schedule x every fault offset x {once, forever} for all inputs <= 4 (5) bytes and checks FaultOK (only leading records of the fault-free decode, then exactly one error, last); a variant that hands out the partial record is refuted. MC_Fault: the error paths of the FASTQ (Scanner), SAM and BED (ReadString) and Newick (ReadByte) readers, as functions of the delivered prefix, satisfy FaultOK for every offset of every input of small well-formed corpora; the unrepaired SAM behaviour is refuted. Real runs: every reader x well-formed inputs (<= 400 bytes, thorough 5000) x every byte offset x {once, forever} x {1-byte, 4096-byte reads} with a consumer that never stops (unbounded iteration detected by a cap), and every format's Write x every offset at which the destination starts failing, judged by Trace_Cross.",
+    "ref": "DESIGN.md section 6 C07",
+    "note": "Trusted: TLC; the stdlib semantics written down in MC_Fault are assumptions exercised by every real run.",
+    "technique": T,
+}
+CLAIMS["C11"] = {
+    "text": "The reader machines of Fasta/Fastq/Newick/Sam/Bed.tla are total and equal their denotations on every input of the bounded domains (TLC would raise an evaluation error on an unhandled case); MC_Sam file checks per-line error isolation. Real decoders (all six readers and the NCBI matrix reader) are run on every string <= 3 bytes over each format's class alphabet, seeded noise and grammar-aware mutations of valid files: Trace_Total rejects a panic, non-termination (watchdog / item cap), an item that is neither record nor error, and - for every accepted record whose text fields are free of the format's delimiters - a write -> read that does not reproduce the record. Every record line of seeded valid SAM files x 15 kinds of single-line corruption x both reader modes is judged by Trace_Sam (the specification certifies the corruption, then requires one error at that position and all other items unchanged).",
+    "ref": "DESIGN.md section 6 C11",
+    "note": "Trusted: TLC, strconv token tables, projection. Go's native fuzzing engine is not used as a generator (seeded generators only).",
+    "technique": T,
+}
+CLAIMS["C16"] = {
+    "text": "TLC explores the sweep of NewIndex event by event for every pair of start/end lists of <= 3 (thorough <= 4, and <= 3 over 0..5) coordinates over 0..3, including empty, inverted, duplicate and nested intervals and different lengths, and checks that the implementation-shaped At equals the property-level Covering for every query -1..4 (SweepInv, AtIsCovering, Ascending, MismatchPanics; the unrepaired sweep is refuted). Every terminal model state is executed on the real index under 5 strictly monotone coordinate maps incl. MinInt/MaxInt neighbourhoods, with overwrite-and-requery. Seeded sets of <= 200 intervals with queries at every endpoint +-1 and slice mutations, and 8 concurrent readers under the race detector, are validated event by event by Trace_Regions.",
+    "ref": "DESIGN.md section 6 C16",
+    "note": "Trusted: TLC, rank projection of coordinates, the Go race detector as observer of writes by At. Exhaustive only in the model's scope; random beyond.",
+    "technique": T,
+}
+CLAIMS["C18"] = {
+    "text": "MC_Iter: the push-iterator protocol (producer, three forwarding layers, consumer stopping anywhere) for all item sequences <= 4: NoCallbackAfterStop, PrefixOfFullRun; a layer that drops the consumer's false is refuted. Stream.tla StopOK: the FASTA reader stopped at every item under every schedule. Real runs: all six Readers and Files (plain, gzip, missing path) on valid and invalid inputs, PreOrder, PostOrder, trie.ForEach, CanonicalSubsequences, each stopped at every position 1..N+1 by calling the iterator function directly (callbacks after false are counted) and, for traversals and k-mers, through range+break; Trace_Cross checks prefix-of-full-run (distinct members for ForEach), no callback after stop, no panic, and error-item-last for FASTA/FASTQ/BED/Newick.",
+    "ref": "DESIGN.md section 6 C18",
+    "note": "Trusted: TLC, interning of items. Inputs with more than 60 items are skipped in the stop sweep (quadratic).",
+    "technique": T,
+}
+CLAIMS["C19"] = {
+    "text": "TLC explores the (node, child-index) stack machine of traverse for every ordered tree with <= 7 (thorough <= 9) nodes in both modes (StackIsPath, visited prefix/equals recursive Pre/Post, tree unchanged; the statement's descendant/sibling clauses agree with Pre/Post; the witness equations accept exactly Pre/Post among all permutations for trees <= 6/7 nodes). Every shape is built from real newick.Node values and both iterators are compared with the model's sequences. Seeded random trees up to 10^4 nodes and chains/caterpillars/brooms of 10^5 (thorough 10^6) nodes are validated by Trace_Traverse (witness form; recursive definitions too where n*depth <= 10^7), incl. tree encoding before = after.",
+    "ref": "DESIGN.md section 6 C19",
+    "note": "Trusted: TLC, pointer->id projection. Witness form = recursive order is model-checked for small trees and holds by induction beyond. Early stop is C18.",
+    "technique": T,
+}
 PENDING = {}
